@@ -838,7 +838,16 @@ impl<'a> Model<'a> {
                             None => return err("undefined function in module"),
                         }
                     }
-                    None => self.lookup_plain(idx, Kind::Fn, name)?,
+                    None => match self.lookup_plain(idx, Kind::Fn, name)? {
+                        Some(o) => Some(o),
+                        // the global functions min()/max() exist in every module without any @use
+                        // (thorough-tier false alarm: the model printed `min(0)` as plain CSS)
+                        None if name == "max" || name == "min" => {
+                            self.tag("global-min-max");
+                            Some(Origin::Builtin("math".to_string(), name.clone()))
+                        }
+                        None => None,
+                    },
                 };
                 let mut vals = vec![];
                 for a in args {
